@@ -1306,7 +1306,32 @@ run_case(Ctx& ctx)
         }
       else
         ctx.count("hessian_checks", w.nvox);
-      ctx.count("penalised_checks", 4);
+      // full-data penalised Hessian product: out0 + sum over all subsets of H_s v, minus the WHOLE prior's H_prior v
+      // ("each quantity summed over all subsets equals its full-data counterpart", "penalised = unpenalised minus the prior's share")
+      {
+        shared_ptr<Target> outf = w.img_from(w.out0);
+        if (obj.accumulate_Hessian_times_input(*outf, *L1, *V) != Succeeded::yes)
+          return fail("hessian-times-input-returned-no", "penalised, full data");
+        const std::vector<float> hfp = World::vec_from(*outf);
+        for (int v = 0; v < w.nvox; ++v)
+          {
+            double sum = w.out0[v], sb = 4 * vf::EPS32 * std::fabs(w.out0[v]);
+            for (int t = 0; t < c.S; ++t)
+              {
+                sum += static_cast<double>(HH[t][v]) - static_cast<double>(w.out0[v]);
+                sb += 8 * vf::EPS32 * (std::fabs(HH[t][v]) + std::fabs(w.out0[v]));
+              }
+            const double e = sum - static_cast<double>(phv[v]);
+            const double band = sb * (c.S + 1) + 8 * vf::EPS32 * (c.S + 1) * std::fabs(phv[v]);
+            if (!vf::close_enough(static_cast<double>(hfp[v]), e, band))
+              return fail("penalised-full-hessian-times-input-is-not-unpenalised-minus-prior",
+                          vf::fmt("%d subsets, %s: STIR %.9g; out0 + sum of the subset products %.9g - (H_prior v) %.9g = %.9g, band %.3g", c.S,
+                                  vox_name(w, v).c_str(), hfp[v], sum, phv[v], e, band));
+          }
+        ctx.count("hessian_checks", w.nvox);
+        ctx.count("penalised_full_hessian_checks");
+      }
+      ctx.count("penalised_checks", 5);
     }
 
   // ---- re-configuration history (quantifier "histories"): ONE object is taken through 2..5 configurations; between two
